@@ -88,6 +88,19 @@ def step (w : List String) : String :=
     match [a, b, c, d, e, f, g, h].mapM parseInt? with
     | some [a, b, c, d, e, f, g, h] => if isOverlap (a, b, c, d) (e, f, g, h) then "1" else "0"
     | _ => "bad-op"
+  | ["colrng", h] => match unhexS h with
+    | some s => showE (fun (q : Int × Int) => s!"{q.1} {q.2}") (parseColRange s)
+    | none => "bad-op"
+  | ["colw", ha, hb] => match unhexS ha, unhexS hb with
+    | some a, some b => showE (fun (q : Int × Int) => s!"{q.1} {q.2}") (colWidthRange a b)
+    | _, _ => "bad-op"
+  | ["pathsm", rs, hc] => match parseRefs rs, unhexS hc with
+    | some ms, some c =>
+      let k := fun (e : Except Err Key) => match e with
+        | .ok key => (match key.stored with | some x => hexS x | none => "?")
+        | .error _ => "ERR"
+      "P=" ++ k (pathPrepareM ms c) ++ " G=" ++ k (pathGetStringM ms c) ++ " H=" ++ k (pathLinkM ms c)
+    | _, _ => "bad-op"
   | ["paths", h] => match unhexS h with
     | some s => String.ofList (pathsOp s)
     | none => "bad-op"
